@@ -560,7 +560,7 @@ func MonC13() *Mon {
 	// by the harness' own knowledge (the flag its callback serves right now, its identity's place in the list of the
 	// height), not by what the library's context says about itself
 	isWatch := func(n *Node) bool {
-		return n.D.Validators != nil && (n.WatchFlag || n.IndexAt(n.D.BlockIndex) < 0)
+		return n.D.Validators != nil && (n.WatchFlag || n.IndexAt(n.D.BlockIndex) < 0 || n.KeyGone())
 	}
 	return &Mon{Name: "C13",
 		Broadcast: func(n *Node, p Payload) {
